@@ -42,6 +42,7 @@ type Input struct {
 	DefaultService    string `json:"default_service,omitempty"`
 	WatchWithoutClass bool   `json:"watch_without_class"`
 	Drain             bool   `json:"drain"`
+	Strict            bool   `json:"strict_host,omitempty"` // global strict-host
 	// SSLRedirect leaves ssl-redirect at its default (true): http requests of a rule whose
 	// host has TLS are redirected to https. Such inputs are judged by the oracle only (the
 	// Coq model describes plain routing).
@@ -55,7 +56,7 @@ type Input struct {
 	Note     string               `json:"note,omitempty"`
 }
 
-var hostPool = []string{"a.example", "b.example", "sub.a.example", "c.example", ""}
+var hostPool = []string{"a.example", "b.example", "sub.a.example", "c.example", "", "*.a.example", "*.wild.example", "x.wild.example"}
 
 func genCfg() world.Config {
 	return world.Config{MaxIngresses: 7, Classes: true, TLS: true, DefaultBackend: true, NotReady: true,
@@ -65,7 +66,7 @@ func genCfg() world.Config {
 func gen(rng *rand.Rand, search bool) Input {
 	cfg := genCfg()
 	objs := world.GenCluster(rng, cfg)
-	in := Input{WatchWithoutClass: rng.Intn(4) > 0, Drain: rng.Intn(2) == 0, SSLRedirect: rng.Intn(8) == 0}
+	in := Input{WatchWithoutClass: rng.Intn(4) > 0, Drain: rng.Intn(2) == 0, SSLRedirect: rng.Intn(8) == 0, Strict: rng.Intn(4) == 0}
 	switch rng.Intn(6) {
 	case 0:
 		in.DefaultService = "ns1/svc1"
@@ -278,7 +279,12 @@ func genRequests(rng *rand.Rand, objs []client.Object) []Req {
 			continue
 		}
 		for _, r := range ing.Spec.Rules {
-			if r.Host != "" {
+			if strings.HasPrefix(r.Host, "*.") {
+				// a wildcard host: one label, two labels, the apex
+				hosts["sub"+r.Host[1:]] = true
+				hosts["a.b"+r.Host[1:]] = true
+				hosts[r.Host[2:]] = true
+			} else if r.Host != "" {
 				hosts[r.Host] = true
 			}
 			if r.HTTP == nil {
@@ -302,7 +308,11 @@ func genRequests(rng *rand.Rand, objs []client.Object) []Req {
 		}
 		for _, t := range ing.Spec.TLS {
 			for _, h := range t.Hosts {
-				hosts[h] = true
+				if strings.HasPrefix(h, "*.") {
+					hosts["sub"+h[1:]] = true
+				} else {
+					hosts[h] = true
+				}
 			}
 		}
 	}
@@ -370,6 +380,9 @@ func run(o *hx.Opts, in Input) []runResult {
 	}
 	if in.Drain {
 		data["drain-support"] = "true"
+	}
+	if in.Strict {
+		data["strict-host"] = "true"
 	}
 	all := append([]client.Object{p.GlobalConfigMap(data)}, objs...)
 	err := p.Seed(all...)
@@ -618,8 +631,8 @@ func coqCase(id int, in Input, rr runResult) string {
 	if rr.defback != "" && rr.defback != "_error404" {
 		defback = "(Some " + hx.Str(rr.defback) + ")"
 	}
-	return fmt.Sprintf("{| cid := %s; ccl := %s;\n  chttp := %s;\n  chttps := %s;\n  cdefault := %s;\n  cdefback := %s;\n  creqs := %s |}",
-		hx.N(id), coqCluster(in, rr), coqChain(rr.chains[0]), coqChain(rr.chains[1]), coqChain(rr.chains[2]), defback, hx.List(reqs))
+	return fmt.Sprintf("{| cid := %s; ccl := %s; cstrict := %s;\n  chttp := %s;\n  chttps := %s;\n  cdefault := %s;\n  cdefback := %s;\n  creqs := %s |}",
+		hx.N(id), coqCluster(in, rr), hx.Bool(in.Strict), coqChain(rr.chains[0]), coqChain(rr.chains[1]), coqChain(rr.chains[2]), defback, hx.List(reqs))
 }
 
 // ---------------------------------------------------------------- corpus
